@@ -18,12 +18,8 @@ Statement (properties.jsonl), split into the parts proved below:
        recursion), and the recursion bounds are never the reason for stopping:
        `C14_mpclc_fuel_adequate` (the Bristol model has no bound: it recurses
        on the list of lines);
-       crash: `C14_bristol_never_panics` (full strength: every indexing in
-       `ParseBristol` is in range for every input);  for `ParseMPCLC` the
-       statement is FALSE for the code in /repo: `C14_mpclc_panic_witness`
-       (replayed on the Go code by the harness: run-time panic "index out of
-       range [0] with length 0");  `C14_mpclc_never_panics_partial` proves it
-       for the code with the one-line guard.
+       crash: `C14_bristol_never_panics`, `C14_mpclc_never_panics`: every
+       indexing in either parser is in range for every input.  Full strength.
  (C) "Writing any circuit in either supported file format and parsing it back
      yields a circuit with the same gates, wire and gate counts and
      input/output signature …, hence the same function, and writing it again
@@ -31,13 +27,15 @@ Statement (properties.jsonl), split into the parts proved below:
        type text: `C14_type_roundtrip` (full strength on the I/O type grammar);
        Bristol: `C14_bristol_roundtrip` (full strength for every circuit the
        format can carry: sizes only, at least one input bit);
-       native: FALSE for the code in /repo once an I/O header string crosses
-       the 4096-byte bufio buffer or the reader delivers short reads
-       (`C14_mpclc_roundtrip_short_read_witness`, `…_short_reader_witness`,
-       replayed on the Go code with 30..450-member struct headers);
-       `C14_mpclc_roundtrip_partial` proves it for files of at most one buffer
-       read from a full-delivery reader, `C14_mpclc_roundtrip_fixed` proves the
-       full statement for `parseString` with `io.ReadFull`.
+       native: `C14_mpclc_roundtrip` (full strength: every valid circuit, every
+       reader behaviour, every file size).
+
+The code in /repo is the variant `Fix.both` (Model/Format.lean) since the
+repairs 7309cfb and a93bbfc; the check requires that (structural fact + probe).
+The OLD code (`Fix.none`) violated (B) and (C); that stays recorded as
+statements about the explicitly named old variant at the end of this file
+(`C14_old_…`): negation witnesses, and what did hold.  They say nothing about
+the code as it is.
 -/
 import MpcVerif.Proofs.FormatBristol
 
@@ -84,35 +82,22 @@ theorem C14_parsed_WF (cfg : RdCfg) (fx : Fix) (bytes : Bytes) (c : PCircuit)
 theorem C14_bristol_never_panics (bytes : Bytes) : parseBristol bytes ≠ .error .panic :=
   parseBristol_no_panic bytes
 
+/-- `ParseMPCLC` (the code as it is: `gate >= len(gates)` is tested before the
+record is read and stored) performs no out-of-range access, whatever the input
+and the reader behaviour. -/
+theorem C14_mpclc_never_panics (cfg : RdCfg) (bytes : Bytes) :
+    parseMPCLC cfg Fix.both bytes ≠ .error .panic :=
+  parseMPCLC_guard_no_panic cfg Fix.both rfl bytes
+
 /-- A valid 37-byte file (no gates, one wire, one 1-bit input `u1`) … -/
 def c14PanicBase : PCircuit := ⟨0, 1, [.mk [] (.base .uint true 1) []], [], []⟩
 
-/-- … extended by one gate record `INV 0 -> 0`. -/
+/-- … extended by one gate record `INV 0 -> 0`: more records than declared. -/
 def c14PanicWitness : Bytes := marshal c14PanicBase ++ [4, 0, 0, 0, 0, 0, 0, 0, 0]
 
-/-- NEGATION of "never crashes" for `ParseMPCLC` as it is in /repo: the store
-`gates[gate]` with `gate = 0 = len(gates)`.  Declared sizes: 0, 1, 1, 0, 0, 2,
-1, 0 — all far below a million.  The harness replays these bytes (and every
-mutant with more gate records than declared) on the Go code. -/
-theorem C14_mpclc_panic_witness :
-    parseMPCLC RdCfg.std Fix.none c14PanicWitness = .error .panic :=
+/-- Non-vacuity / the former crash file: it is refused with an error. -/
+example : parseMPCLC RdCfg.std Fix.both c14PanicWitness = .error .error :=
   resClass_err _ _ (by decide +kernel)
-
-/-- Without the extra record the same file parses. -/
-example : resClass (parseMPCLC RdCfg.std Fix.none (marshal c14PanicBase)) = none := by
-  decide +kernel
-
-/-- FULL STATEMENT (false for /repo, see the witness): `∀ cfg bytes,
-parseMPCLC cfg Fix.none bytes ≠ .error .panic`.
-PROVED: with the test `gate >= NumGates` at the top of the gate loop (the
-variant `guardGates`; 2 lines of Go, same as `ParseBristol`) no access of
-`ParseMPCLC` is out of range, for every input and reader behaviour.  So the
-missing guard is the ONLY crash. -/
-theorem C14_mpclc_never_panics_partial (cfg : RdCfg) (fx : Fix) (hfx : fx.guardGates = true)
-    (bytes : Bytes) : parseMPCLC cfg fx bytes ≠ .error .panic :=
-  parseMPCLC_guard_no_panic cfg fx hfx bytes
-
-example : Fix.both.guardGates = true := rfl
 
 /-- Totality ("never hangs") of the model of `ParseMPCLC`: it is a Lean
 function, so it terminates on every input; its three recursion bounds (stream
@@ -149,35 +134,18 @@ example : (Info.arr false 3 24 (.arr true 5 40 (.base .struct true 8))).inGramma
 example : typeParse (typeString (.base .float true 32)) = none := by decide +kernel
 example : typeParse (typeString (.base .bool false 0)) = some (.base .bool true 1) := by decide +kernel
 
-/-
-FULL STATEMENT of the native round trip:
-  ∀ cfg (c : PCircuit), c.Valid →
-    parseMPCLC cfg Fix.none (marshal c) = .ok c.norm ∧ marshal c.norm = marshal c
-(for every reader behaviour `cfg`).  It is FALSE for the code in /repo:
-`C14_mpclc_roundtrip_short_read_witness`.  Proved instead:
-  * `C14_mpclc_roundtrip_partial`: the statement for the code as it is, when
-    the file fits the 4096-byte bufio buffer and the underlying reader delivers
-    what is asked (bytes.Reader, regular files);
-  * `C14_mpclc_roundtrip_fixed`: the full statement, every reader behaviour and
-    file size, for `parseString` with `io.ReadFull` (one-line repair).
-`c.norm` differs from `c` only in what the format does not carry: `Input1` of
-INV gates is 0, types are as `types.Parse` reads their text (`Info.norm`).
--/
-
-/-- Native round trip for the code in /repo, files of at most one buffer. -/
-theorem C14_mpclc_roundtrip_partial (cfg : RdCfg) (c : PCircuit) (hv : c.Valid)
-    (hfull : FullOracle cfg) (hfit : (marshal c).length ≤ cfg.bufSize) (hbs : 20 < cfg.bufSize) :
-    parseMPCLC cfg Fix.none (marshal c) = .ok c.norm ∧ marshal c.norm = marshal c ∧
+/-- Native round trip, full strength, for the code as it is: for every valid
+circuit `c` (`PCircuit.Valid`: counts/lengths/sizes within the property's cap,
+I/O types in the grammar, and the parser's own acceptance conditions), every
+bufio buffer size and every read-size behaviour of the underlying `io.Reader`,
+`ParseMPCLC (Marshal c)` returns `c.norm`, writing that again gives the same
+bytes, and it computes the same function.  `c.norm` differs from `c` only in
+what the format does not carry: `Input1` of INV gates is 0, types are as
+`types.Parse` reads their text (`Info.norm`). -/
+theorem C14_mpclc_roundtrip (cfg : RdCfg) (c : PCircuit) (hv : c.Valid) :
+    parseMPCLC cfg Fix.both (marshal c) = .ok c.norm ∧ marshal c.norm = marshal c ∧
     ∀ x, c.norm.toCircuit.compute x = c.toCircuit.compute x :=
-  ⟨parseMPCLC_marshal cfg Fix.none c hv (Or.inr ⟨hfull, hfit, hbs⟩), marshal_norm c, compute_norm c⟩
-
-/-- Native round trip at full strength (all circuits, all reader behaviours,
-all sizes) for the repaired `parseString`. -/
-theorem C14_mpclc_roundtrip_fixed (cfg : RdCfg) (fx : Fix) (hfx : fx.readFullStrings = true)
-    (c : PCircuit) (hv : c.Valid) :
-    parseMPCLC cfg fx (marshal c) = .ok c.norm ∧ marshal c.norm = marshal c ∧
-    ∀ x, c.norm.toCircuit.compute x = c.toCircuit.compute x :=
-  ⟨parseMPCLC_marshal cfg fx c hv (Or.inl hfx), marshal_norm c, compute_norm c⟩
+  ⟨parseMPCLC_marshal cfg Fix.both c hv (Or.inl rfl), marshal_norm c, compute_norm c⟩
 
 example : FullOracle RdCfg.std := fun _ _ => Nat.le_refl _
 
@@ -207,9 +175,12 @@ theorem c14Example_valid : c14Example.Valid where
       simp only [c14Example] at hw; omega
     rcases this with h | h | h | h | h <;> subst h <;> decide
 
-example : parseMPCLC RdCfg.std Fix.none (marshal c14Example) = .ok c14Example.norm :=
-  (C14_mpclc_roundtrip_partial RdCfg.std c14Example c14Example_valid (fun _ _ => Nat.le_refl _)
-    (by decide +kernel) (by decide)).1
+example : parseMPCLC RdCfg.std Fix.both (marshal c14Example) = .ok c14Example.norm :=
+  (C14_mpclc_roundtrip RdCfg.std c14Example c14Example_valid).1
+
+/-- … also through a reader that delivers one byte per `Read`. -/
+example : parseMPCLC ⟨4096, fun _ _ => 1⟩ Fix.both (marshal c14Example) = .ok c14Example.norm :=
+  (C14_mpclc_roundtrip _ c14Example c14Example_valid).1
 
 /-- Bristol round trip, full strength for the circuits the format can carry
 (`BValid`: sizes in `[0, 2^31)`, at least one input bit — `ParseBristol`
@@ -249,32 +220,56 @@ def c14BigArg (n : Nat) : IOArg :=
   .mk [115] (.base .struct true 2) ((List.range n).map fun i =>
     .mk ([109, 101, 109, 98, 101, 114, 95] ++ dec (1000 + i)) (.base .uint true (if i < 2 then 1 else 0)) [])
 
-/-- One AND gate, inputs: that struct. -/
+/-- One AND gate, inputs: that struct.  Marshals to 6479 bytes. -/
 def c14Big (n : Nat) : PCircuit :=
   ⟨1, 3, [c14BigArg n], [.mk [114] (.base .uint true 1) []], [⟨.and, 0, 1, 2⟩]⟩
 
-/-- NEGATION of the round trip for the code in /repo: a circuit with a
-200-member struct argument marshals to 6479 bytes; `ParseMPCLC` reading them
-from a `bytes.Reader` / file through its 4096-byte `bufio.Reader` does NOT
-return the circuit: the name that straddles byte 4096 is cut short by
-`r.Read(buf)`, the stream is misaligned, and the next length field read is
-above 10^6.  With `io.ReadFull` the same bytes parse (`C14_mpclc_roundtrip_fixed`;
-concretely the second conjunct).  The harness replays the same shape (struct of
-30..450 members) on the Go code. -/
-theorem C14_mpclc_roundtrip_short_read_witness :
-    4096 < (marshal (c14Big 200)).length ∧
-    parseMPCLC RdCfg.std Fix.none (marshal (c14Big 200)) = .error .oversize ∧
+/-- Non-vacuity beyond one buffer: the 6479-byte file parses (code as it is,
+`bytes.Reader` behind the 4096-byte `bufio.Reader`). -/
+example : 4096 < (marshal (c14Big 200)).length ∧
     resClass (parseMPCLC RdCfg.std Fix.both (marshal (c14Big 200))) = none :=
-  ⟨by decide +kernel, resClass_err _ _ (by decide +kernel), by decide +kernel⟩
-
-/-- The same defect with a small file and a reader that delivers 3 bytes per
-`Read` (any `io.Reader` may): the file of `c14PanicBase` with the name
-"hello" (after the short read the letters "lo\0\0" are taken for a length). -/
-theorem C14_mpclc_roundtrip_short_reader_witness :
-    resClass (parseMPCLC ⟨4096, fun _ _ => 3⟩ Fix.none
-      (marshal ⟨0, 1, [.mk [104, 101, 108, 108, 111] (.base .uint true 1) []], [], []⟩)) = some .oversize ∧
-    resClass (parseMPCLC ⟨4096, fun _ _ => 3⟩ Fix.both
-      (marshal ⟨0, 1, [.mk [104, 101, 108, 108, 111] (.base .uint true 1) []], [], []⟩)) = none :=
   ⟨by decide +kernel, by decide +kernel⟩
+
+/-! ## The OLD variant `Fix.none` (before 7309cfb / a93bbfc)
+
+Statements about the code as it WAS, kept as a record of the two defects the
+check found; the harness replayed each witness on the Go code at the time, and
+replays the same files now as ordinary cases (corpus/C14). -/
+
+/-- OLD code: negation of "never crashes".  The store `gates[gate]` with
+`gate = 0 = len(gates)`; declared sizes 0, 1, 1, 0, 0, 2, 1, 0. -/
+theorem C14_old_mpclc_panic_witness :
+    parseMPCLC RdCfg.std Fix.none c14PanicWitness = .error .panic :=
+  resClass_err _ _ (by decide +kernel)
+
+/-- OLD code: negation of the native round trip.  The name that straddles byte
+4096 was cut short by `r.Read(buf)`, the stream was misaligned and the next
+length field read was above 10^6. -/
+theorem C14_old_mpclc_roundtrip_short_read_witness :
+    4096 < (marshal (c14Big 200)).length ∧
+    parseMPCLC RdCfg.std Fix.none (marshal (c14Big 200)) = .error .oversize :=
+  ⟨by decide +kernel, resClass_err _ _ (by decide +kernel)⟩
+
+/-- OLD code: the same defect with a small file and a reader that delivers 3
+bytes per `Read`: the file of `c14PanicBase` with the name "hello". -/
+theorem C14_old_mpclc_roundtrip_short_reader_witness :
+    resClass (parseMPCLC ⟨4096, fun _ _ => 3⟩ Fix.none
+      (marshal ⟨0, 1, [.mk [104, 101, 108, 108, 111] (.base .uint true 1) []], [], []⟩)) = some .oversize :=
+  by decide +kernel
+
+/-- OLD code: what did hold — the round trip for files of at most one buffer
+read from a reader that delivers what is asked. -/
+theorem C14_old_mpclc_roundtrip_one_buffer (cfg : RdCfg) (c : PCircuit) (hv : c.Valid)
+    (hfull : FullOracle cfg) (hfit : (marshal c).length ≤ cfg.bufSize) (hbs : 20 < cfg.bufSize) :
+    parseMPCLC cfg Fix.none (marshal c) = .ok c.norm :=
+  parseMPCLC_marshal cfg Fix.none c hv (Or.inr ⟨hfull, hfit, hbs⟩)
+
+/-- Each repair alone removes its defect (any variant with the guard never
+panics; any variant with `io.ReadFull` round-trips). -/
+theorem C14_each_repair_suffices (cfg : RdCfg) (fx : Fix) :
+    (fx.guardGates = true → ∀ bytes, parseMPCLC cfg fx bytes ≠ .error .panic) ∧
+    (fx.readFullStrings = true → ∀ c : PCircuit, c.Valid → parseMPCLC cfg fx (marshal c) = .ok c.norm) :=
+  ⟨fun h bytes => parseMPCLC_guard_no_panic cfg fx h bytes,
+   fun h c hv => parseMPCLC_marshal cfg fx c hv (Or.inl h)⟩
 
 end Mpc
